@@ -269,10 +269,7 @@ func Main(run *hx.Run) {
 		}
 		for k := 0; k < n; k++ {
 			family := Families[k%len(Families)]
-			cmp := "asc"
-			if r.Chance(1, 3) {
-				cmp = "desc"
-			}
+			cmp := hx.Pick(r, c01.CmpNames)
 			size := r.Range(4, 40)
 			every := 1
 			small := true
